@@ -58,16 +58,11 @@ Theorem library_data_wellformed :
 Proof. destruct library_ok, stdtype_library_ok. auto. Qed.
 Print Assumptions library_data_wellformed.
 
-(* ---- 2. compressibility slope = stored derivative: refuted by the data for hydrogen *)
-Theorem compressibility_files_consistent_partial : forall f,
-  In f fluid_library -> f_name f <> "hydrogen"%string -> f_compr_slope f == f_der_compressibility f.
-Proof. exact library_compressibility_partial_lemma. Qed.
-Print Assumptions compressibility_files_consistent_partial.
-
-Theorem compressibility_files_consistent_refuted :
-  exists f, In f fluid_library /\ ~ f_compr_slope f == f_der_compressibility f.
-Proof. exact library_compressibility_refuted_lemma. Qed.
-Print Assumptions compressibility_files_consistent_refuted.
+(* ---- 2. compressibility slope = stored derivative, every library fluid *)
+Theorem compressibility_files_consistent : forall f,
+  In f fluid_library -> f_compr_slope f == f_der_compressibility f.
+Proof. exact library_compressibility_lemma. Qed.
+Print Assumptions compressibility_files_consistent.
 
 (* ---- 3. shapes *)
 Theorem shape : forall q,
@@ -113,32 +108,36 @@ Proof.
 Qed.
 Print Assumptions polynomial_integral_laws.
 
-Theorem interextra_integral_antisymmetric : forall g a b,
-  interextra_integral g a b == - interextra_integral g b a.
+(* the interpolated property integrates exactly: F(upper) - F(lower) with F = _antiderivative *)
+Theorem interextra_integral_antisymmetric : forall F a b,
+  interextra_integral F a b == - interextra_integral F b a.
 Proof. exact interextra_integral_antisym_lemma. Qed.
 Print Assumptions interextra_integral_antisymmetric.
 
-Theorem interextra_integral_consistent : forall g a b,
-  interextra_integral g a b == (g a + g b) / 2 * (a - b).
-Proof. exact interextra_integral_trapezoid. Qed.
-Print Assumptions interextra_integral_consistent.
+(* additive for ALL limits (inside, across any number of knots, in the extrapolated ends) *)
+Theorem interextra_integral_additive : forall ks a b c,
+  interextra_integral (interextra_antiderivative ks) a b + interextra_integral (interextra_antiderivative ks) b c
+  == interextra_integral (interextra_antiderivative ks) a c.
+Proof. intros. apply interextra_integral_additive_lemma. Qed.
+Print Assumptions interextra_integral_additive.
 
-(* additivity of the trapezoid-of-the-end-points formula holds inside one segment ... *)
-Theorem interextra_integral_additive_partial : forall ks pre p q post a b c,
+(* consistent with the property values: for two limits in one piece of the table - the first piece extends
+   to minus infinity, the last to plus infinity - the integral is the exact integral of the affine piece,
+   i.e. the trapezoid of the property values at the limits; with additivity this fixes the integral for all
+   limits.  Moreover F is 0 at the first knot and grows by one trapezoid of the table per segment. *)
+Theorem interextra_integral_consistent : forall ks pre p q post,
   ks = pre ++ p :: q :: post -> strictly_increasing ks = true ->
-  fst p <= a <= fst q -> fst p <= b <= fst q -> fst p <= c <= fst q ->
-  interextra_integral (interextra_getter ks) a b + interextra_integral (interextra_getter ks) b c
-  == interextra_integral (interextra_getter ks) a c.
-Proof. exact interextra_additive_within_segment. Qed.
-Print Assumptions interextra_integral_additive_partial.
-
-(* ... and fails across a knot *)
-Theorem interextra_integral_additive_refuted :
-  exists ks a b c, strictly_increasing ks = true /\
-  ~ (interextra_integral (interextra_getter ks) a b + interextra_integral (interextra_getter ks) b c
-     == interextra_integral (interextra_getter ks) a c).
-Proof. exists refuting_table, 2, 1, 0. exact interextra_additive_refuted_lemma. Qed.
-Print Assumptions interextra_integral_additive_refuted.
+  (forall a b, in_piece pre post p q a -> in_piece pre post p q b ->
+     interextra_integral (interextra_antiderivative ks) a b
+     == (interextra_getter ks a + interextra_getter ks b) / 2 * (a - b)) /\
+  interextra_antiderivative ks (fst p) == cum_before pre p /\
+  interextra_antiderivative ks (fst q) == cum_before pre p + (snd q + snd p) / 2 * (fst q - fst p).
+Proof.
+  intros ks pre p q post E Hs. split.
+  - intros a b. now apply interextra_integral_piece_lemma.
+  - now apply (antideriv_at_knot ks pre p q post).
+Qed.
+Print Assumptions interextra_integral_consistent.
 
 (* ---- 5. mixtures: any number of components *)
 Theorem mass_fractions_sum_to_one : forall xm,
@@ -185,8 +184,12 @@ Print Assumptions pump_array_is_map_scalar.
         (mapping regenerated from create.py, keys touched by retrieve_u regenerated from component_toolbox.py)
         is the library number itself; the only exception is u_w_per_m2k derived from a given u_w_per_mk *)
 Theorem std_type_reaches_pipe_unchanged : forall s col, In s pipe_library -> In col std_columns ->
-  match created_cell create_pipe_std_columns retrieve_u_writes col s with
-  | CVal v => match v, std_field col s with Some a, Some b => a == b | None, None => True | _, _ => False end
+  match created_cell create_pipe_std_columns retrieve_u_writes retrieve_u_default col s with
+  | CVal v => match std_field col s with
+              | Some b => exists a, v = Some a /\ a == b
+              | None => (* only a missing heat transfer value: retrieve_u's documented default *)
+                        col = "u_w_per_m2k"%string /\ s_u_w_per_mk s = None /\ opt_q_eqb v retrieve_u_default = true
+              end
   | CDerived => col = "u_w_per_m2k"%string /\ s_u_w_per_mk s <> None /\ s_u_w_per_m2k s = None
   | CNotFromStdType => False
   end.
@@ -194,8 +197,11 @@ Proof.
   intros s col Hs Hc.
   pose proof (proj1 (forallb_forall _ _) std_types_reach_pipes_lemma s Hs) as H.
   unfold reaches_unchanged in H. pose proof (proj1 (forallb_forall _ _) H col Hc) as H1. simpl in H1.
-  destruct (created_cell create_pipe_std_columns retrieve_u_writes col s) as [v| |]; try discriminate.
-  - destruct v, (std_field col s); try discriminate; auto. now apply Qeq_bool_iff.
+  destruct (created_cell create_pipe_std_columns retrieve_u_writes retrieve_u_default col s) as [v| |]; try discriminate.
+  - destruct (std_field col s) as [b|].
+    + destruct v as [a|]; try discriminate. exists a. split; auto. now apply Qeq_bool_iff.
+    + apply andb_true_iff in H1. destruct H1 as [H1 H3]. apply andb_true_iff in H1. destruct H1 as [H1 H2].
+      apply String.eqb_eq in H1. destruct (s_u_w_per_mk s); try discriminate. auto.
   - apply andb_true_iff in H1. destruct H1 as [E H1]. apply String.eqb_eq in E.
     destruct (s_u_w_per_mk s), (s_u_w_per_m2k s); try discriminate. repeat split; auto. discriminate.
 Qed.
@@ -211,6 +217,13 @@ Proof. vm_compute. repeat split; intro; discriminate. Qed.
 Example library_example : length fluid_library = 8%nat /\ (length (f_density fluid_water) >= 10)%nat /\
   (length pipe_library >= 100)%nat /\ length pump_library = 3%nat.
 Proof. vm_compute. repeat split; repeat constructor. Qed.
+
+Example integral_example :   (* the former counterexample of additivity: limits 2, 1, 0 across the knot 1 *)
+  let t := [(0, 0); (1, 0); (2, 2)] in
+  interextra_integral (interextra_antiderivative t) 2 0 == 1 /\
+  interextra_integral (interextra_antiderivative t) 2 1 == 1 /\ interextra_integral (interextra_antiderivative t) 1 0 == 0 /\
+  interextra_integral (interextra_antiderivative t) 4 (-2) == 9.
+Proof. vm_compute. repeat split. Qed.
 
 Example mixture_example :
   let xm := [(1 # 2, 16); (1 # 4, 28); (1 # 4, 44)] in
